@@ -13,6 +13,7 @@ mod gen_common;
 mod ir;
 mod model;
 mod obs;
+mod region;
 mod rng;
 mod run;
 mod seams;
